@@ -551,6 +551,101 @@ func rulesC02(w *World, r *Report) {
 		if pf := fn(w.Lib, "Whisper.propagate"); pf != nil {
 			ruleLoopGoesOn(w, r, "C02.R6", "Whisper.propagate:every-slot", firstLoopCall(pf, fn(w.Lib, "Whisper.fetchRawPoints")), "every coarser slot covering a written point is recomputed; a slot without known finer values is skipped, not the rest of the work-list")
 		}
+		// level by level: what is handed to the next level is aligned to the very next archive's step
+		if pf := fn(w.Lib, "Whisper.propagate"); pf != nil && len(pf.Params) == 4 {
+			ifw := fn(w.Lib, "ArchiveInfo.intervalForWrite")
+			bad := ""
+			n := 0
+			var leaves func(v ssa.Value, seen map[ssa.Value]bool) []ssa.Value
+			leaves = func(v ssa.Value, seen map[ssa.Value]bool) []ssa.Value {
+				if u, ok := v.(*ssa.UnOp); ok && u.Op == token.MUL {
+					// a value receiver: the archive is loaded through the pointer
+					if _, isIA := u.X.(*ssa.IndexAddr); isIA {
+						return []ssa.Value{u.X}
+					}
+					if _, isPhi := u.X.(*ssa.Phi); isPhi {
+						return leaves(u.X, seen)
+					}
+				}
+				if ph, ok := v.(*ssa.Phi); ok {
+					if seen[ph] {
+						return nil
+					}
+					seen[ph] = true
+					var out []ssa.Value
+					for _, e := range ph.Edges {
+						out = append(out, leaves(e, seen)...)
+					}
+					return out
+				}
+				return []ssa.Value{v}
+			}
+			for _, c := range callsTo(pf, ifw) {
+				// only the alignment of the times passed on (its argument is the slot time of the loop), not the base interval
+				if len(c.Common().Args) != 2 || c.Common().Args[1] == ssa.Value(pf.Params[3]) {
+					continue
+				}
+				for _, l := range leaves(c.Common().Args[0], map[ssa.Value]bool{}) {
+					if k, isK := l.(*ssa.Const); isK && k.IsNil() {
+						continue
+					}
+					ia, isIA := l.(*ssa.IndexAddr)
+					if !isIA {
+						continue // the archive being written itself (r) or a copy: judged by the aligned-write rules
+					}
+					idx := newExprCtx(w).expr(ia.Index)
+					if idx == "p1" {
+						continue
+					}
+					n++
+					if idx != "(p1 + 1)" && bad == "" {
+						bad = "the times passed on are aligned to archive " + idx + " at " + w.instrPos(c) + ", not to the next archive (archiveID+1)"
+					}
+				}
+			}
+			r.Check(bad == "" && n > 0, "C02.R4", "Whisper.propagate:next-level", w.pos(pf.Pos()), "the work-list for the next level is aligned to archive archiveID+1", "propagate: "+bad+": with more than three archives the level in between is recomputed for the wrong slot (or not at all) and the levels below it are built from stale data")
+		}
+		// ... and only those: the work-list holds the coarser interval of each written point, nothing in between
+		if ttp := fn(w.Lib, "ArchiveInfo.timesToPropagate"); ttp != nil && len(ttp.Params) == 2 {
+			ifw := fn(w.Lib, "ArchiveInfo.intervalForWrite")
+			bad := ""
+			n := 0
+			judge := func(v ssa.Value, at ssa.Instruction) {
+				n++
+				c, isCall := v.(*ssa.Call)
+				if !isCall || c.Common().StaticCallee() != ifw || len(c.Common().Args) != 2 {
+					if bad == "" {
+						bad = "the time put on the work-list at " + w.instrPos(at) + " is " + shortExpr(newExprCtx(w).expr(v)) + ", not intervalForWrite of a written point's time"
+					}
+					return
+				}
+				a := newExprCtx(w).expr(c.Common().Args[1])
+				if !strings.Contains(a, "p1[") || !strings.HasSuffix(a, ".Time") {
+					if bad == "" {
+						bad = "the interval put on the work-list at " + w.instrPos(at) + " is computed from " + shortExpr(a) + ", not from a written point's time"
+					}
+				}
+			}
+			eachInstr(ttp, func(in ssa.Instruction) {
+				switch t := in.(type) {
+				case *ssa.Call:
+					if bi, ok := t.Common().Value.(*ssa.Builtin); ok && bi.Name() == "append" && len(t.Common().Args) == 2 {
+						if _, isTS := t.Type().Underlying().(*types.Slice); isTS && namedTypeName(t.Type().Underlying().(*types.Slice).Elem()) == "Timestamp" {
+							for _, e := range varargElems(t.Common().Args[1]) {
+								judge(e, t)
+							}
+						}
+					}
+				case *ssa.Store:
+					if ia, ok := t.Addr.(*ssa.IndexAddr); ok {
+						if _, isMk := ia.X.(*ssa.MakeSlice); isMk && namedTypeName(t.Val.Type()) == "Timestamp" {
+							judge(t.Val, t)
+						}
+					}
+				}
+			})
+			r.Check(bad == "" && n > 0, "C02.R6", "ArchiveInfo.timesToPropagate:only-touched", w.pos(ttp.Pos()), fmt.Sprintf("%d places put a time on the work-list: each is intervalForWrite(points[i].Time)", n), "timesToPropagate: "+bad+": coarser slots that cover no written point are recomputed and overwritten")
+		}
 		var extra []string
 		for _, g := range blockGuards(w, putCall.Block()) {
 			if (strings.Contains(g, "XFilesFactor(") || strings.Contains(g, ".xFilesFactor")) || isLenEmptinessTest(g, `whispertool\.filterValidValues\(.*\)`) || isLenEmptinessTest(g, `p2`) {
@@ -606,8 +701,20 @@ func ruleAggregateShape(w *World, r *Report, rule string) {
 		r.Undecided(rule, "anchors", "-", "aggregate/sum not found")
 		return
 	}
-	names := map[int64]string{1: "average", 2: "sum", 3: "last", 4: "max", 5: "min", 6: "first"}
-	for k := int64(1); k <= 6; k++ {
+	// the case of a method is found by the value of its named constant (the codes themselves belong to C06.R1)
+	names := map[int64]string{}
+	var codes []int64
+	for cname, meth := range map[string]string{"Average": "average", "Sum": "sum", "Last": "last", "Max": "max", "Min": "min", "First": "first"} {
+		v, ok := constValue(w, cname)
+		if !ok {
+			r.Undecided(rule, "aggregate:"+meth, "-", "constant "+cname+" not found")
+			continue
+		}
+		names[v] = meth
+		codes = append(codes, v)
+	}
+	sort.Slice(codes, func(i, j int) bool { return codes[i] < codes[j] })
+	for _, k := range codes {
 		// find the case body entry for method k
 		e := &ddEngine{w: w, env: map[ssa.Value]aval{ag.Params[0]: {k: kInt, i: k}}}
 		var entry *ssa.BasicBlock
@@ -763,6 +870,67 @@ func rulesC03(w *World, r *Report) {
 		}
 		r.Check(bad == "", "C03.R1", "UpdatePointsForArchive:sort-first", w.instrPos(stable), "the sort dominates every partition and write", "the partition at "+bad+" can run on an unsorted batch (the sort does not dominate it): the backward scan then drops in-range points")
 	}
+	// the order the sort establishes is the order of the times themselves
+	if less := fn(w.Lib, "Points.Less"); less != nil && len(less.Params) == 3 {
+		bad := ""
+		n := 0
+		timeOf := func(v ssa.Value) int {
+			// pp[k].Time, loaded -> index of the parameter k
+			var elem ssa.Value
+			if fv, isF := v.(*ssa.Field); isF {
+				// a copy of the element: (*&pp[k]).Time
+				st, isSt := fv.X.Type().Underlying().(*types.Struct)
+				u, isU := fv.X.(*ssa.UnOp)
+				if !isSt || st.Field(fv.Field).Name() != "Time" || !isU || u.Op != token.MUL {
+					return -1
+				}
+				elem = u.X
+			} else {
+				u, ok := v.(*ssa.UnOp)
+				if !ok || u.Op != token.MUL {
+					return -1
+				}
+				fa, ok := u.X.(*ssa.FieldAddr)
+				if !ok {
+					return -1
+				}
+				if _, name, ok2 := fieldAddrOf(fa); !ok2 || name != "Time" {
+					return -1
+				}
+				elem = fa.X
+			}
+			ia, ok := elem.(*ssa.IndexAddr)
+			if !ok || ia.X != ssa.Value(less.Params[0]) {
+				return -1
+			}
+			for k := 1; k <= 2; k++ {
+				if ia.Index == ssa.Value(less.Params[k]) {
+					return k
+				}
+			}
+			return -1
+		}
+		for _, ret := range returnsOf(less) {
+			n++
+			vals, complete := resultValues(ret, 0)
+			if !complete || len(vals) != 1 {
+				bad = "the result is not a single comparison"
+				continue
+			}
+			bo, ok := vals[0].(*ssa.BinOp)
+			if !ok {
+				bad = "the result is not a comparison of the two times"
+				continue
+			}
+			x, y := timeOf(bo.X), timeOf(bo.Y)
+			switch {
+			case bo.Op == token.LSS && x == 1 && y == 2, bo.Op == token.GTR && x == 2 && y == 1:
+			default:
+				bad = "the result is not pp[i].Time < pp[j].Time on the times themselves (a difference taken in a narrower or signed type wraps for times far apart, so the batch is no longer ascending and the backward partition drops in-range points)"
+			}
+		}
+		r.Check(bad == "" && n > 0, "C03.R1", "Points.Less:orders-by-time", w.pos(less.Pos()), "Less(i, j) is pp[i].Time < pp[j].Time", "Points.Less: "+bad)
+	}
 
 	// R2
 	r.Rule("C03.R2", "canonicalised failing conditions + dominance: UpdatePointForArchive fails iff t <= now.Add(-MaxRetention()) and iff now < t (unguarded), and both tests dominate putPointAt and propagateChain", 3)
@@ -801,6 +969,81 @@ func rulesC03(w *World, r *Report) {
 		ex := newExprCtx(w)
 		a1 := ex.expr(c.Common().Args[1])
 		r.Check(a1 == "p2", "C03.R4", "UpdatePointForArchive:best-archive-arg", w.instrPos(c), "the best archive is chosen for the point's own time", "findBestArchive is called with "+a1+" instead of the point's timestamp: points at a retention boundary are routed to the wrong archive")
+	}
+	// a named archive is the archive written: the id changes only when ArchiveIDBest was asked for
+	{
+		var used []ssa.Value
+		for _, c := range callsTo(up1, fn(w.Lib, "Whisper.propagateChain")) {
+			if len(c.Common().Args) > 1 {
+				used = append(used, c.Common().Args[1])
+			}
+		}
+		eachInstr(up1, func(in ssa.Instruction) {
+			if ia, ok := in.(*ssa.IndexAddr); ok && strings.Contains(newExprCtx(w).expr(ia.X), "rchiveInfoList") {
+				used = append(used, ia.Index)
+			}
+		})
+		bad := ""
+		idParam := ssa.Value(up1.Params[1])
+		for _, u := range used {
+			ph, isPhi := u.(*ssa.Phi)
+			if !isPhi {
+				if u != idParam {
+					bad = "the archive index " + newExprCtx(w).expr(u) + " is not the id the caller named"
+				}
+				continue
+			}
+			for i, e := range ph.Edges {
+				pred := ph.Block().Preds[i]
+				if e == idParam {
+					continue
+				}
+				c, isCall := e.(*ssa.Call)
+				if !isCall || c.Common().StaticCallee() != fba {
+					bad = "the archive index can become " + newExprCtx(w).expr(e)
+					continue
+				}
+				// only on the `archiveID == ArchiveIDBest` outcome
+				onlyBest := false
+				for _, b := range up1.Blocks {
+					if len(b.Instrs) == 0 {
+						continue
+					}
+					iff, ok := b.Instrs[len(b.Instrs)-1].(*ssa.If)
+					if !ok {
+						continue
+					}
+					cond, neg := stripNot(iff.Cond)
+					bo, ok := cond.(*ssa.BinOp)
+					if !ok || (bo.Op != token.EQL && bo.Op != token.NEQ) {
+						continue
+					}
+					var k ssa.Value
+					switch {
+					case bo.X == idParam:
+						k = bo.Y
+					case bo.Y == idParam:
+						k = bo.X
+					default:
+						continue
+					}
+					if kv, isK := constInt(k); !isK || kv != -1 {
+						continue
+					}
+					eqEdge := 0
+					if (bo.Op == token.NEQ) != neg {
+						eqEdge = 1
+					}
+					if edgeDominates(b, b.Succs[eqEdge], c.Block()) && (pred == c.Block() || c.Block().Dominates(pred)) {
+						onlyBest = true
+					}
+				}
+				if !onlyBest {
+					bad = "findBestArchive replaces the archive id on a path where the caller named an archive (not only when it is ArchiveIDBest)"
+				}
+			}
+		}
+		r.Check(bad == "" && len(used) > 0, "C03.R4", "UpdatePointForArchive:named-archive", w.pos(up1.Pos()), fmt.Sprintf("%d uses of the archive id: the caller's, or findBestArchive's only under archiveID == ArchiveIDBest", len(used)), "UpdatePointForArchive: "+bad+": a write to a named archive lands in another archive, so the named archive's slot keeps its old value")
 	}
 	// R3
 	r.Rule("C03.R3", "partition (decision diagram over a 3-point batch): for every assignment of 'point j is stale' (points[j].Time <= now.Add(-maxRetention), the only test on the points) extractPoints returns (points[k:], points[:k]) where k-1 is the last stale index (k = 0: the whole batch and an empty remainder); every point after k-1 was tested and found fresh", 3)
